@@ -631,6 +631,28 @@ Proof. unfold src_sparse_rogers_tanimoto, sparse_rogers_tanimoto, n_neq. cbv zet
 Theorem src_sparse_sokal_michener_eq (n : nat) :
   src_sparse_sokal_michener N U I (zi a) (vals N a) (zi b) (vals N b) (Z.of_nat n) = sparse_sokal_michener N a b n.
 Proof. unfold src_sparse_sokal_michener, sparse_sokal_michener, n_neq. cbv zeta. rewrite HU, HI. reflexivity. Qed.
+
+(* sparse_russellrao (367-376): `ind1.shape[0] == ind2.shape[0] and np.all(ind1 == ind2)` is equality of the two index arrays
+   ([zall_eq] under the length test, PyPrimLemmas.zall_eq_len_iff) = the model's [list_eqb]; `np.sum(data != 0)` = [countb nz] *)
+Lemma list_eqb_iff (x y : list nat) : list_eqb x y = true <-> x = y.
+Proof.
+  revert y. induction x as [|i x IH]; intros [|j y]; cbn [list_eqb]; try (split; [discriminate|discriminate]); [split; reflexivity|].
+  rewrite andb_true_iff, Nat.eqb_eq, IH. split; [intros [-> ->]; reflexivity|intros H; injection H; auto].
+Qed.
+Lemma zi_all_eq : (zlen (zi a) =? zlen (zi b))%Z && zall_eq (zi a) (zi b) = list_eqb (inds N a) (inds N b).
+Proof.
+  assert (Inj : forall x y : list nat, map Z.of_nat x = map Z.of_nat y -> x = y).
+  { induction x as [|i x IH]; intros [|j y] H; try discriminate; [reflexivity|]. cbn [map] in H. injection H as H1 H2.
+    apply Nat2Z.inj in H1. subst. f_equal. apply IH. exact H2. }
+  destruct (list_eqb (inds N a) (inds N b)) eqn:E.
+  - apply list_eqb_iff in E. apply zall_eq_len_iff. unfold zi. rewrite E. reflexivity.
+  - destruct (_ && _) eqn:E'; [|reflexivity]. apply zall_eq_len_iff in E'. apply Inj in E'. apply list_eqb_iff in E'. congruence.
+Qed.
+Theorem src_sparse_russellrao_eq (n : nat) :
+  src_sparse_russellrao N I (zi a) (vals N a) (zi b) (vals N b) (Z.of_nat n) = sparse_russellrao N a b n.
+Proof.
+  unfold src_sparse_russellrao, sparse_russellrao, ofn. cbv zeta. rewrite zi_all_eq, HI. reflexivity.
+Qed.
 End Binary.
 
 End Generic.
